@@ -61,6 +61,7 @@ Definition run_access (w : wire) : wire :=
 
 Definition out_lres (r : lres) : wire := match r with Found k => [0; zn k] | NotReported => [9] | Thrown => [2] end.
 
+Fixpoint pairs (l : list Z) : list (Z * Z) := match l with a :: b :: t => (a, b) :: pairs t | _ => [] end.
 Definition run_c18 (w : wire) : wire :=
   match w with
   | 1 :: w' => run_access w'
@@ -69,5 +70,7 @@ Definition run_c18 (w : wire) : wire :=
   | [4; opens] => match save_outcome (0 <? opens) with Found _ => [0] | _ => [2] end
   | 5 :: opens :: k :: chunks => let '(o, sz) := save (0 <? opens) chunks k in [match o with Saved => 0 | Reported => 2 end; sz]
   | 6 :: opens :: k :: chunks => let '(o, sz) := save_pinned (0 <? opens) chunks k in [match o with Saved => 0 | Reported => 2 end; sz]
+  (* strict format selection: [7; has_dot; suffix; s1; f1; s2; f2; ...] (registered suffix -> format pairs) *)
+  | 7 :: dot :: sfx :: tbl => out_lres (format_from_suffix (pairs tbl) (0 <? dot) sfx)
   | _ => [-1]
   end.
